@@ -78,6 +78,9 @@ func (multi *MultiEpoch) findEpochNumberFromSignature(ctx context.Context, sig s
 			}
 			if _, err := epoch.FindCidFromSignature(ctx, sig); err == nil {
 				return epochNumber, nil
+			} else if !errors.Is(err, compactindexsized.ErrNotFound) {
+				// a failing index read is not "the signature is not in this epoch"
+				return 0, fmt.Errorf("failed to look up the signature in epoch %d: %w", epochNumber, err)
 			}
 			// Not found in this epoch.
 			return 0, ErrNotFound
